@@ -17,7 +17,7 @@ PID = 'C14'
 RULE = ('cases = operation histories (<= 12 quick / <= 24 thorough steps) on a PairTable and a ValueTable over 1-4 types (type '
         'names of varying length, also non-string types); operations: set single key, set list x list, setUnset, apply in/out of place, '
         'mutate a stored value through a read handle, mutate the caller\'s object after assignment, check(), iterate (3 modes); '
-        'every written value has a unique id, a third of them are falsy (and the ValueTable also gets builtin falsy values 0.0, 0, False, \'\', ()); non-trivial = history with >= 1 re-assignment of an already assigned key or a '
+        'every written value has a unique id, a third of them are falsy (and the ValueTable also gets builtin falsy values 0.0, 0, False, \'\', () and numpy arrays); non-trivial = history with >= 1 re-assignment of an already assigned key or a '
         'setUnset after a partial assignment; distinct = distinct (types, step list) digests')
 ASSUMPTIONS = ['copy isolation is asserted for PairTable only (ValueTable stores references; the property only names PairTable)',
                'symmetric=True (default) tables']
@@ -267,7 +267,7 @@ class Plain(object):
         self.uid = uid
 
 
-BUILTIN_FALSY = [0.0, 0, False, '', (), 0.25, 'x']
+BUILTIN_FALSY = [0.0, 0, False, '', (), 0.25, 'x', np.array([1.0, 2.0, 3.0]), np.zeros(4), np.array([0.0]), [0.0, 1.0]]
 
 
 def run_valuetable_builtin(ctx, types, rng):
@@ -292,7 +292,8 @@ def run_valuetable_builtin(ctx, types, rng):
         for a in types:
             got = T[a]
             if a in model:
-                if type(got) is not type(model[a]) or got != model[a]:
+                same = type(got) is type(model[a]) and (np.array_equal(got, model[a]) if isinstance(got, np.ndarray) else got == model[a])
+                if not same:
                     ctx.violation('vt:wrong-value', 'after %s: type %r reads %r, last assigned %r (falsy values are values, not "unset")' % (what, a, got, model[a]))
                     return
             elif got is not None:
